@@ -12,7 +12,7 @@ outward normals from the cofactor rule / facet tangents / element centroids,
 exact box integrals for the change of variables and the divergence theorem.
 """
 
-import json, traceback, hashlib
+import os, json, traceback, hashlib
 import numpy
 from vlib.runner import Result, rng_for
 from vlib import tolerance
@@ -36,10 +36,12 @@ ASSUMPTIONS = ['the oracle (vlib/c08_poly.py: sparse multivariate polynomials, n
                'curvature(), Laplace-Beltrami and integrals over curved embedded manifolds have no closed-form oracle here and are only covered through the identities they are built from',
                'float tolerance: pass <=1e-9*scale, violation >1e-5*scale (vlib.tolerance), scale = magnitude of the monomials of the reference']
 BUDGET_S = {'quick': 110, 'thorough': 1500}
-NCASES = {'quick': 1400, 'thorough': 26000}
-CHUNK = 10
+NCASES = {'quick': 960, 'thorough': 12000}
+if os.environ.get('VERIF_C08_NCASES'):   # development aid only
+    NCASES = {k: int(os.environ['VERIF_C08_NCASES']) for k in NCASES}
+CHUNK = 8
 KINDS = ['pointwise', 'pointwise', 'pointwise', 'integral', 'integral', 'manifold_bnd', 'manifold_emb', 'product']
-TRI_MAXDEG, TET_MAXDEG, TENSOR_MAXDEG = 6, 7, 14
+TRI_MAXDEG, TET_MAXDEG, TENSOR_MAXDEG = 6, 7, 12
 
 
 def plan(tier, seed):
@@ -132,11 +134,12 @@ def field_ops(P, f, x, m, kw=None, nd=None, want=None):
         return lambda X: mult * float(pabs(A, X).max()) if len(X) else 1.
     ops['grad'] = (function.grad(f, x, **kw), lambda X: peval(dP, X), sc(dP))
     needs2 = want is None or any(w in want for w in ('laplace', 'hessian'))
-    if needs2:
+    if needs2 and len(S) <= 1:
         ddP = pgrad(dP, P.flat[0].n)[..., :nd]
         lap = parray(0, S, lambda idx: sum((ddP[idx + (i, i)] for i in range(nd)), Poly(P.flat[0].n)))
-        ops['laplace'] = (function.laplace(f, x, **kw), lambda X: peval(lap, X), sc(ddP, nd))
         if len(S) <= 1:
+            ops['laplace'] = (function.laplace(f, x, **kw), lambda X: peval(lap, X), sc(ddP, nd))
+        if len(S) == 0 or (len(S) == 1 and nd < 3):
             ops['hessian'] = (function.grad(function.grad(f, x, **kw), x, **kw), lambda X: peval(ddP, X), sc(ddP))
     if S and S[-1] == nd:
         div = parray(0, S[:-1], lambda idx: sum((dP[idx + (i, i)] for i in range(nd)), Poly(P.flat[0].n)))
@@ -253,25 +256,27 @@ def try_f_index(topo, res):
 def pick_samples(rng, n, tier):
     interior = [['gauss', int(rng.integers(1, 5))], ['bezier', int(rng.integers(2, 4))], ['uniform', int(rng.integers(1, 3))]][int(rng.choice(3, p=[.6, .25, .15]))]
     if n == 3 and interior[0] != 'gauss':
-        interior = ['bezier', 2] if interior[0] == 'bezier' else ['uniform', 1]
+        interior = ['bezier', 2]
     facet = [['gauss', int(rng.integers(2, 5))], ['bezier', 2], ['uniform', 2]][int(rng.choice(3, p=[.7, .2, .1]))]
     return dict(interior=interior, boundary=facet, interface=facet)
 
 
 def random_shape(rng, m):
+    if m == 3:
+        return [(), (), (3,), (3,), (3,), (2,), (2, 3), (3, 3)][int(rng.integers(0, 8))]
     return [(), (), (m,), (m,), (m, m), (2,), (2, m), (m, 2)][int(rng.integers(0, 8))]
 
 
-def pick_dim(rng, p=(.15, .5, .35)):
+def pick_dim(rng, p=(.15, .58, .27)):
     return int(rng.choice([1, 2, 3], p=p))
 
 
 def random_mesh(rng, n, tier, allow_product=True, **kw):
-    if allow_product and n >= 2 and rng.random() < .15:
+    if allow_product and n >= 2 and rng.random() < (.12 if n == 2 else .05):
         a = int(rng.integers(1, n))
-        spec = dict(kind='product', X=meshes.random_spec(rng, a, tier, space='X', history=rng.random() < .4),
-                    Y=meshes.random_spec(rng, n - a, tier, space='Y', history=rng.random() < .4))
-        if rng.random() < .3:
+        spec = dict(kind='product', X=meshes.random_spec(rng, a, tier, space='X', history=rng.random() < .3),
+                    Y=meshes.random_spec(rng, n - a, tier, space='Y', history=rng.random() < .3))
+        if n == 2 and rng.random() < .3:
             spec['history'] = [['refined']] if rng.random() < .7 else [['refined_by', [round(float(rng.random()), 4)]]]
         return spec
     return meshes.random_spec(rng, n, tier, **kw)
@@ -340,7 +345,7 @@ def alt_spec(rng, spec):
 def gen_case(seed, i, tier):
     rng = rng_for(seed, 'c08', i)
     kind = KINDS[i % len(KINDS)]
-    style = str(rng.choice(['power', 'mul']))
+    style = str(rng.choice(['power', 'mul'], p=[.7, .3]))
     case = dict(index=i, kind=kind, style=style)
     if kind == 'pointwise':
         n = pick_dim(rng)
@@ -351,7 +356,10 @@ def gen_case(seed, i, tier):
         k = int(rng.integers(1, 5))
         case['field'] = ptojson(geo.random_field(rng, n, random_shape(rng, n), k))
         case['vec'] = [round(float(v), 4) for v in rng.normal(size=n)]
-        if rng.random() < .45:
+        allops = ['div', 'symgrad', 'curl', 'laplace', 'hessian']
+        case['facet_ops'] = dict(boundary=[str(rng.choice(allops))], interface=[str(rng.choice(allops))])
+        case['parts'] = [['interior'], ['boundary'], ['interface']][int(rng.choice(3, p=[.4, .28, .32]))]
+        if case['parts'] == ['interior'] and rng.random() < .5:
             case['alt'], case['alt_kind'] = alt_spec(rng, spec)
     elif kind == 'integral':
         n = pick_dim(rng)
@@ -359,8 +367,8 @@ def gen_case(seed, i, tier):
         lo, hi = spec_extent(spec)
         sd = spec_simplexdim(spec)
         extra = 0 if spec_affine(spec) else n
-        vlim = (TENSOR_MAXDEG, TENSOR_MAXDEG, TRI_MAXDEG, TET_MAXDEG)[sd if sd else 0] if sd else TENSOR_MAXDEG
-        flim = (TENSOR_MAXDEG, TENSOR_MAXDEG, TENSOR_MAXDEG, TRI_MAXDEG)[sd] if sd else TENSOR_MAXDEG
+        vlim = {0: TENSOR_MAXDEG, 2: TRI_MAXDEG, 3: TET_MAXDEG}[sd]
+        flim = {0: TENSOR_MAXDEG, 2: TENSOR_MAXDEG, 3: TRI_MAXDEG}[sd]
         # choose geometry degree md and field degrees so that the exact integrands fit the available Gauss schemes
         for _ in range(50):
             md = int(rng.choice([1, 2, 3], p=[.3, .4, .3]))
@@ -378,7 +386,8 @@ def gen_case(seed, i, tier):
         else:
             F = geo.random_field(rng, n, (n,), kF)
         case['F'] = ptojson(F)
-        case['alt'], case['alt_kind'] = alt_spec(rng, spec)
+        if rng.random() < .5:
+            case['alt'], case['alt_kind'] = alt_spec(rng, spec)
         case['wseed'] = int(rng.integers(0, 2**31))
     elif kind == 'manifold_bnd':
         n = int(rng.choice([2, 3], p=[.6, .4]))
@@ -407,11 +416,13 @@ def gen_case(seed, i, tier):
                 kF -= 1
         case.update(mesh=spec, geom=geo.gen_geometry(rng, lo, hi, deg, emb=1, flat=flat, amode='general' if rng.random() < .8 else None))
         case['samples'] = pick_samples(rng, n, tier)
+        case['parts'] = [['interior'], ['boundary'], ['interface'], ['integral']][int(rng.choice(4, p=[.35, .25, .15, .25]))] if flat else \
+            [['interior'], ['boundary'], ['interface']][int(rng.choice(3, p=[.45, .35, .2]))]
         case['field'] = ptojson(geo.random_field(rng, n + 1, random_shape(rng, n + 1)[:1], int(rng.integers(1, 5))))
         case['F'] = ptojson(geo.random_field(rng, n + 1, (n + 1,), kF))
     elif kind == 'product':
-        a = int(rng.choice([1, 2], p=[.5, .5]))
-        b = int(rng.choice([1, 2], p=[.7, .3])) if a == 1 else 1
+        a = int(rng.choice([1, 2], p=[.6, .4]))
+        b = int(rng.choice([1, 2], p=[.8, .2])) if a == 1 else 1
         X = meshes.random_spec(rng, a, tier, space='X', history=rng.random() < .4)
         Y = meshes.random_spec(rng, b, tier, space='Y', history=rng.random() < .4)
         opspace = str(rng.choice(['X', 'Y']))
@@ -454,6 +465,7 @@ def gen_case(seed, i, tier):
         case['field'] = ptojson(geo.random_field(rng, ns + no, random_shape(rng, ns)[:1], int(rng.integers(1, 4))))
         case['F'] = ptojson(geo.random_field(rng, ns + no, (ns,), kF))
         case['samples'] = pick_samples(rng, a + b, tier)
+        case['parts'] = [['interior'], ['boundary'], ['integral']][int(rng.choice(3, p=[.35, .3, .35]))]
     return case
 
 
@@ -525,33 +537,39 @@ def run_pointwise(case, ck):
     Jx, Jg = function.J(x), function.J(g)
 
     # documented refusal: curl outside 3D
-    if n != 3 and P.shape and P.shape[-1] == 3:
+    if n != 3:
         try:
-            function.curl(f, x)
+            function.curl(numpy.stack([x[0]] * 3), x)
             res.violation('curl accepted a non-3D geometry', case, 'no ValueError')
         except ValueError:
             res.count('refusal/curl needs a 3D geometry (ValueError)')
 
     # ---- interior
+    parts = case['parts']
     smp = topo.sample(*case['samples']['interior'])
-    named = dict(g=g, x=x, Jx=Jx, Jg=Jg)
-    named.update({k: v[0] for k, v in ops.items()})
-    V = eval_named(smp, named)
-    G = V['g']
-    X = peval(sc.Phi, G)
-    res.count('points/interior', len(G))
-    ck.cmp('x==Phi(g)', 'interior', V['x'], X, scale=float(pabs(sc.Phi, G).max()), nontrivial=False)
-    for k, (fn, ref, scl) in ops.items():
-        ck.cmp(k, 'interior', V[k], ref(X), scale=scl(X))
-    D = peval(sc.DPhi, G)
-    ck.cmp('J(x)==|det DPhi| J(g)', 'interior', V['Jx'], numpy.abs(numpy.linalg.det(D)) * V['Jg'])
+    if 'interior' in parts:
+        named = dict(g=g, x=x, Jx=Jx, Jg=Jg)
+        named.update({k: v[0] for k, v in ops.items()})
+        V = eval_named(smp, named)
+        G = V['g']
+        X = peval(sc.Phi, G)
+        res.count('points/interior', len(G))
+        ck.cmp('x==Phi(g)', 'interior', V['x'], X, scale=float(pabs(sc.Phi, G).max()), nontrivial=False)
+        for k, (fn, ref, scl) in ops.items():
+            ck.cmp(k, 'interior', V[k], ref(X), scale=scl(X))
+        D = peval(sc.DPhi, G)
+        ck.cmp('J(x)==|det DPhi| J(g)', 'interior', V['Jx'], numpy.abs(numpy.linalg.det(D)) * V['Jg'])
+        interior_vals = V
+    else:
+        G = smp.eval(g)     # only the element centroids are needed
     cent = centroids_of(smp, G)
-    interior_vals = V
 
     # ---- boundary and interfaces
     fidx = try_f_index(topo, res)
     vec = numpy.asarray(case['vec'])
     for skind in ('boundary', 'interface'):
+        if skind not in parts:
+            continue
         ftopo = topo.boundary if skind == 'boundary' else topo.interfaces
         if len(ftopo) == 0:
             res.count(f'empty/{skind}')
@@ -559,7 +577,8 @@ def run_pointwise(case, ck):
         smp = ftopo.sample(*case['samples'][skind])
         nrm = function.normal(x)
         named = dict(g=g, x=x, n=nrm, Jx=Jx, Jg=Jg, tangent=function.tangent(x, vec))
-        named.update({k: v[0] for k, v in ops.items()})
+        fops = {k: v for k, v in ops.items() if k == 'grad' or k in case['facet_ops'][skind]}
+        named.update({k: v[0] for k, v in fops.items()})
         named['ngrad'] = function.ngrad(f, x)
         if P.shape and P.shape[-1] == n:
             named['dotnorm'] = function.dotnorm(f, x)
@@ -569,7 +588,6 @@ def run_pointwise(case, ck):
             named['nopp'] = function.opposite(nrm)
             named['jumpx'] = function.jump(x)
             named['jumpgrad'] = function.jump(ops['grad'][0])
-            named['meangrad'] = function.mean(ops['grad'][0])
             if fidx is not None:
                 named['eopp'] = function.opposite(fidx)
         V = eval_named(smp, named)
@@ -578,7 +596,7 @@ def run_pointwise(case, ck):
         N = V['n']
         res.count(f'points/{skind}', len(G))
         ck.cmp('x==Phi(g)', skind, V['x'], X, scale=float(pabs(sc.Phi, G).max()), nontrivial=False)
-        for k, (fn, ref, scl) in ops.items():
+        for k, (fn, ref, scl) in fops.items():
             ck.cmp(k, skind, V[k], ref(X), scale=scl(X))
         D, cov = check_facet_normals(ck, sc, smp, skind, G, N, cent, V.get('ethis'), V.get('eopp'))
         nu = normalize(cov)
@@ -595,21 +613,20 @@ def run_pointwise(case, ck):
             ck.cmp('n+opposite(n)=0', skind, N + V['nopp'], numpy.zeros_like(N))
             ck.cmp('jump(x)=0', skind, V['jumpx'], numpy.zeros_like(X), scale=float(pabs(sc.Phi, G).max()))
             ck.cmp('jump(grad p)=0', skind, V['jumpgrad'], numpy.zeros_like(gref), scale=gs)
-            ck.cmp('mean(grad p)==p\'(x)', skind, V['meangrad'], gref, scale=gs)
 
     # ---- the same physical points on another parametrisation of the same domain
-    if 'alt' in case:
+    if 'alt' in case and 'interior' in parts:
         try:
             sc2 = Scene(case['alt'], case['geom'], case['style'])
         except meshes.Refused as e:
             res.count('refusal/' + str(e)[:80])
             return
-        smp0 = topo.sample('gauss', 2 if n < 3 else 1)
-        names = [k for k in ('grad', 'laplace', 'div') if k in ops]
-        V0 = eval_named(smp0, dict(g=g, **{k: ops[k][0] for k in names}))
+        names = [k for k in ('grad', case['facet_ops']['boundary'][0]) if k in ops]
+        sel = numpy.unique(numpy.linspace(0, len(interior_vals['g']) - 1, 24).astype(int))
+        V0 = {k: interior_vals[k][sel] for k in ['g'] + names}
         G0 = V0['g']
         try:
-            smp2 = sc2.topo.locate(sc2.g, G0, tol=1e-11)
+            smp2 = sc2.topo.locate(sc2.g, G0, tol=1e-10, eps=1e-10)
         except Exception as e:
             res.count('refusal/locate failed: ' + type(e).__name__)
             res.note('locate failed: ' + str(e)[:200])
@@ -629,8 +646,21 @@ def run_pointwise(case, ck):
             ck.cmp(f'{k}: same on both parametrisations', 'located', V2[k], V0[k], scale=scl * 100)
 
 
+def abs_integral_bound(p, lo, hi):
+    'upper bound of int |monomials| over the box: the magnitude entering the cancellations of the exact integral'
+    mx = numpy.maximum(numpy.abs(lo), numpy.abs(hi))
+    vol = float(numpy.prod(hi - lo))
+    return max(1., vol * sum(abs(c) * float(numpy.prod(mx**numpy.array(e))) for e, c in p.terms.items()))
+
+
 def integral_degree(p, extra):
     return max(0, p.degree()) + extra
+
+
+def box_probe_points(lo, hi, k=3):
+    'a small grid of parameter points covering the box incl. its boundary (oracle-side magnitude estimates)'
+    axes = [numpy.linspace(a, b, k) for a, b in zip(lo, hi)]
+    return numpy.stack(numpy.meshgrid(*axes, indexing='ij'), -1).reshape(-1, len(lo))
 
 
 def run_integral(case, ck):
@@ -650,20 +680,60 @@ def run_integral(case, ck):
     Jx = function.J(x)
     fx = geo.nutils_poly(f0, sc.xs(), case['style'])
     Fx = geo.nutils_parray(F, sc.xs(), case['style'])
+    nrm = function.normal(x)
 
-    # (3) change of variables: closed form, and refinement / reparametrisation invariance
-    integrand = f0.compose(list(sc.Phi)) * detD * sgn
-    absint = Poly(n, {e: abs(c) for e, c in integrand.terms.items()})
-    exact = integrand.integrate_box(lo, hi)
-    scale = max(1., abs(Poly(n, {e: abs(c) * numpy.prod(numpy.maximum(abs(lo), abs(hi))**numpy.array(e)) for e, c in integrand.terms.items()}).integrate_box(numpy.zeros(n), hi - lo) if integrand.terms else 0.))
-    deg = integral_degree(integrand, extra)
-    if deg > vlim:
+    # exact values (oracle)
+    integrand = f0.compose(list(sc.Phi)) * detD * sgn            # (3) change of variables
+    exact_f = integrand.integrate_box(lo, hi)
+    scale_f = abs_integral_bound(integrand, lo, hi)
+    dF = pgrad(F, n)
+    divF = sum((dF[i, i] for i in range(n)), Poly(n))
+    vint = divF.compose(list(sc.Phi)) * detD * sgn                # (4) divergence theorem
+    exact_div = vint.integrate_box(lo, hi)
+    exact_vol = (detD * sgn).integrate_box(lo, hi)
+    Fphi = pcompose(F, list(sc.Phi))
+    geomdeg = pmaxdegree(sc.Phi)
+    deg_f = integral_degree(integrand, extra)
+    bdeg = max(0, pmaxdegree(Fphi)) + (n - 1) * max(0, geomdeg - 1) + max(0, extra - 1)
+    vdeg = max(integral_degree(vint, extra), integral_degree(detD, extra))
+    do_f = deg_f <= vlim
+    do_div = bdeg <= flim and vdeg <= vlim
+    if not do_f:
         res.count('skipped/volume integrand beyond available Gauss degree')
-    else:
-        I1 = topo.integrate(fx * Jx, degree=deg)
-        res.maximum('max_gauss_degree', deg)
-        ck.cmp('int f(x) J == closed form', 'interior', [I1], [exact], scale=scale)
+    if not do_div:
+        res.count('skipped/divergence integrand beyond available Gauss degree')
+    if not (do_f or do_div):
+        return
+    Xp = peval(sc.Phi, box_probe_points(lo, hi))
+    Fmag = float(pabs(F, Xp).max())
+    dFmag = float(pabs(dF, Xp).max())
+
+    basis = None
+    if do_div:
         try:
+            basis = topo.basis('discont', degree=0)
+            w = basis @ numpy.random.default_rng(case['wseed']).uniform(.5, 2., len(basis))
+        except (NotImplementedError, ValueError, AssertionError) as e:
+            res.count(f'refusal/discont basis: {type(e).__name__}')
+            basis = None
+
+    # one volume evaluation, one boundary evaluation, one interface evaluation
+    vfuncs = dict(vol=Jx)
+    if do_f:
+        vfuncs['f'] = fx * Jx
+    if do_div:
+        vfuncs['div'] = function.div(Fx, x) * Jx
+        if basis is not None:
+            vfuncs['wdiv'] = w * function.div(Fx, x) * Jx
+    degv = max([deg_f] * do_f + [vdeg] * do_div)
+    res.maximum('max_gauss_degree', degv)
+    keys = list(vfuncs)
+    VI = dict(zip(keys, topo.integrate([vfuncs[k] for k in keys], degree=degv)))
+    if do_f:
+        ck.cmp('int f(x) J == closed form', 'interior', [VI['f']], [exact_f], scale=scale_f)
+        try:
+            if 'alt' not in case:
+                raise meshes.Refused('no alt')
             sc2 = Scene(case['alt'], case['geom'], case['style'])
             ex2 = 0 if sc2.b.affine else n
             lim2 = {0: 10**6, 1: 10**6, 2: TRI_MAXDEG, 3: TET_MAXDEG}[sc2.b.simplexdim]
@@ -671,53 +741,37 @@ def run_integral(case, ck):
             if d2 <= lim2:
                 f2 = geo.nutils_poly(f0, sc2.xs(), case['style'])
                 I2 = sc2.topo.integrate(f2 * function.J(sc2.x), degree=d2)
-                ck.cmp('int f(x) J: same on both parametrisations', 'interior', [I2], [I1], scale=scale)
-                ck.cmp('int f(x) J == closed form', 'interior(alt)', [I2], [exact], scale=scale)
+                ck.cmp('int f(x) J: same on both parametrisations', 'interior', [I2], [VI['f']], scale=scale_f)
+                ck.cmp('int f(x) J == closed form', 'interior(alt)', [I2], [exact_f], scale=scale_f)
                 res.count('alt/' + case['alt_kind'])
             else:
                 res.count('skipped/alt integrand beyond available Gauss degree')
         except meshes.Refused as e:
-            res.count('refusal/' + str(e)[:80])
-
-    # (4) divergence theorem: boundary integral == volume integral == closed form
-    dF = pgrad(F, n)
-    divF = sum((dF[i, i] for i in range(n)), Poly(n))
-    vint = divF.compose(list(sc.Phi)) * detD * sgn
-    exact = vint.integrate_box(lo, hi)
-    Fphi = pcompose(F, list(sc.Phi))
-    geomdeg = pmaxdegree(sc.Phi)
-    bdeg = max(0, pmaxdegree(Fphi)) + (n - 1) * max(0, geomdeg - 1) + max(0, extra - 1)
-    vdeg = integral_degree(vint, extra)
-    # magnitude of the surface integral: |F| times the surface measure
-    if bdeg > flim or vdeg > vlim:
-        res.count('skipped/divergence integrand beyond available Gauss degree')
+            if str(e) != 'no alt':
+                res.count('refusal/' + str(e)[:80])
+    ck.cmp('int J == closed form volume', 'interior', [VI['vol']], [exact_vol])
+    if not do_div:
         return
-    res.maximum('max_gauss_degree', max(bdeg, vdeg))
-    nrm = function.normal(x)
+    res.maximum('max_gauss_degree', bdeg)
     bnd = topo.boundary
-    B, area = bnd.integrate([(Fx @ nrm) * Jx, Jx], degree=bdeg)
-    Vv, vol = topo.integrate([function.div(Fx, x) * Jx, Jx], degree=max(vdeg, integral_degree(detD, extra)))
-    bsmp = bnd.sample('gauss', 1)
-    Fmag = float(pabs(F, peval(sc.Phi, bsmp.eval(g))).max())
-    dscale = max(1., Fmag * abs(area), abs(vol) * float(pabs(dF, peval(sc.Phi, bsmp.eval(g))).max()) * n)
-    ck.cmp('divergence theorem: boundary integral == closed form of int div F', 'boundary', [B], [exact], scale=dscale)
-    ck.cmp('divergence theorem: volume integral == closed form of int div F', 'interior', [Vv], [exact], scale=dscale)
-    ck.cmp('int J == closed form volume', 'interior', [vol], [(detD * sgn).integrate_box(lo, hi)])
-    # element-wise divergence theorem with random piecewise constant weights (uses interface normals and jumps)
-    try:
-        basis = topo.basis('discont', degree=0)
-    except (NotImplementedError, ValueError, AssertionError) as e:
-        res.count(f'refusal/discont basis: {type(e).__name__}')
+    bfuncs = dict(B=(Fx @ nrm) * Jx, area=Jx)
+    if basis is not None:
+        bfuncs['wB'] = w * (Fx @ nrm) * Jx
+    keys = list(bfuncs)
+    BI = dict(zip(keys, bnd.integrate([bfuncs[k] for k in keys], degree=bdeg)))
+    dscale = max(1., Fmag * abs(BI['area']), abs(VI['vol']) * dFmag * n)
+    ck.cmp('divergence theorem: boundary integral == closed form of int div F', 'boundary', [BI['B']], [exact_div], scale=dscale)
+    ck.cmp('divergence theorem: volume integral == closed form of int div F', 'interior', [VI['div']], [exact_div], scale=dscale)
+    if basis is None:
         return
-    w = basis @ numpy.random.default_rng(case['wseed']).uniform(.5, 2., len(basis))
+    # element-wise divergence theorem with random piecewise constant weights (uses interface normals and jumps)
     ifc = topo.interfaces
-    t1 = bnd.integrate(w * (Fx @ nrm) * Jx, degree=bdeg)
-    t2 = ifc.integrate(function.jump(w * Fx) @ nrm * Jx, degree=bdeg) if len(ifc) else 0.
-    t3 = topo.integrate(w * function.div(Fx, x) * Jx, degree=vdeg)
+    t2 = 0.
     if len(ifc):
-        isz = ifc.integrate(Jx, degree=max(0, (n - 1) * max(0, geomdeg - 1)))
+        t2, isz = ifc.integrate([function.jump(w * Fx) @ nrm * Jx, Jx], degree=bdeg)
         dscale = max(dscale, Fmag * abs(isz) * 2)
-    ck.cmp('element-wise divergence theorem (boundary - interface jumps - volume == 0)', 'interface' if len(ifc) else 'boundary', [t1 - t2 - t3], [0.], scale=dscale * 2)
+    ck.cmp('element-wise divergence theorem (boundary - interface jumps - volume == 0)', 'interface' if len(ifc) else 'boundary',
+           [BI['wB'] - t2 - VI['wdiv']], [0.], scale=dscale * 2)
 
 
 def surface_checks(ck, skind, V, X, Nproj, P, F, m):
@@ -790,27 +844,33 @@ def run_manifold_emb(case, ck):
         return normalize(numpy.cross(D[:, :, 0], D[:, :, 1]))
 
     # interior of the manifold
+    parts = case['parts']
     smp = topo.sample(*case['samples']['interior'])
-    named = dict(g=g, x=x, N=Next, sg=function.surfgrad(f, x), sgx=function.surfgrad(x, x), sdiv=function.div(Fx, x, -1), Jx=Jx, Jg=Jg)
-    V = eval_named(smp, named)
-    G = V['g']
-    X = peval(sc.Phi, G)
-    D = peval(sc.DPhi, G)
-    res.count('points/manifold-interior', len(G))
-    ck.cmp('x==Phi(g)', 'manifold-interior', V['x'], X, scale=float(pabs(sc.Phi, G).max()), nontrivial=False)
-    No = oracle_normal(D)
-    ck.cmp('|N_exterior|=1', 'manifold-interior', numpy.linalg.norm(V['N'], axis=1), numpy.ones(len(G)))
-    ck.cmp('N_exterior.t=0', 'manifold-interior', numpy.einsum('km,kmn->kn', V['N'], D), numpy.zeros((len(G), n)), scale=float(numpy.abs(D).max()))
-    sign = numpy.sign(numpy.einsum('km,km->k', V['N'], No))
-    res.count('exterior_normal_sign/' + ('consistent' if abs(sign.sum()) == len(sign) else 'mixed'))
-    ck.cmp('N_exterior==+-normalised cross product of the tangents', 'manifold-interior', V['N'] * sign[:, None], No)
-    surface_checks(ck, 'manifold-interior', V, X, No, P, F, m)
-    ck.cmp('J(x)==sqrt det(DPsi^T DPsi) J(g)', 'manifold-interior', V['Jx'], measure_ratio(D) * V['Jg'])
+    if 'interior' in parts:
+        named = dict(g=g, x=x, N=Next, sg=function.surfgrad(f, x), sgx=function.surfgrad(x, x), sdiv=function.div(Fx, x, -1), Jx=Jx, Jg=Jg)
+        V = eval_named(smp, named)
+        G = V['g']
+        X = peval(sc.Phi, G)
+        D = peval(sc.DPhi, G)
+        res.count('points/manifold-interior', len(G))
+        ck.cmp('x==Phi(g)', 'manifold-interior', V['x'], X, scale=float(pabs(sc.Phi, G).max()), nontrivial=False)
+        No = oracle_normal(D)
+        ck.cmp('|N_exterior|=1', 'manifold-interior', numpy.linalg.norm(V['N'], axis=1), numpy.ones(len(G)))
+        ck.cmp('N_exterior.t=0', 'manifold-interior', numpy.einsum('km,kmn->kn', V['N'], D), numpy.zeros((len(G), n)), scale=float(numpy.abs(D).max()))
+        sign = numpy.sign(numpy.einsum('km,km->k', V['N'], No))
+        res.count('exterior_normal_sign/' + ('consistent' if abs(sign.sum()) == len(sign) else 'mixed'))
+        ck.cmp('N_exterior==+-normalised cross product of the tangents', 'manifold-interior', V['N'] * sign[:, None], No)
+        surface_checks(ck, 'manifold-interior', V, X, No, P, F, m)
+        ck.cmp('J(x)==sqrt det(DPsi^T DPsi) J(g)', 'manifold-interior', V['Jx'], measure_ratio(D) * V['Jg'])
+    else:
+        G = smp.eval(g)
     cent = centroids_of(smp, G)
 
     # boundary of the manifold: co-normal
     fidx = try_f_index(topo, res)
     for skind in ('boundary', 'interface'):
+        if skind not in parts:
+            continue
         ftopo = topo.boundary if skind == 'boundary' else topo.interfaces
         if len(ftopo) == 0:
             res.count(f'empty/{skind}')
@@ -835,7 +895,7 @@ def run_manifold_emb(case, ck):
             ck.cmp('n+opposite(n)=0', skind, Vb['nu'] + Vb['nuopp'], numpy.zeros_like(Vb['nu']))
 
     # flat manifolds: exact area integral and divergence theorem in the plane
-    if case['geom']['flat']:
+    if case['geom']['flat'] and 'integral' in parts:
         extra = 0 if sc.b.affine else n
         lim = {0: 10**6, 1: 10**6, 2: TRI_MAXDEG}[sc.b.simplexdim]
         A = numpy.asarray(case['geom']['A'])
@@ -916,43 +976,48 @@ def run_product(case, ck):
     def physical(Z):
         return numpy.concatenate([peval(Gz, Z), Z[:, ns:]], axis=1)
 
-    # interior
-    smp = topo.sample(*case['samples']['interior'])
-    named = dict(z=zgeom, G=G_nut, JS=JS, JS0=JS0)
-    named.update({k: v[0] for k, v in ops.items()})
-    V = eval_named(smp, named)
-    Z = V['z']
-    Xp = physical(Z)
-    res.count('points/product-interior', len(Z))
-    ck.cmp('x==Phi(g)', 'product-interior', V['G'], peval(Gz, Z), scale=float(pabs(Gz, Z).max()), nontrivial=False)
-    for k, (fn, ref, scl) in ops.items():
-        ck.cmp(k + ' (spaces=)', 'product-interior', V[k], ref(Xp), scale=scl(Xp))
-    Bv = peval(Bz, Z)
-    ck.cmp('J(x,spaces=)==|det dG/dxi_S| J(g_S)', 'product-interior', V['JS'], numpy.abs(numpy.linalg.det(Bv)) * V['JS0'])
-
-    # boundary of the operator space times the other space
     ftopo = (bs.topo.boundary * bo.topo) if opspace == 'X' else (bo.topo * bs.topo.boundary)
-    fs = ftopo.sample(*case['samples']['boundary'])
     nrm = function.normal(G_nut, spaces=spaces)
-    named = dict(z=zgeom, n=nrm, grad=ops['grad'][0], ngrad=function.ngrad(f, G_nut, spaces=spaces), JS=JS, JS0=JS0)
-    V = eval_named(fs, named)
-    Z = V['z']
-    Xp = physical(Z)
-    Bv = peval(Bz, Z)
-    res.count('points/product-boundary', len(Z))
-    nfaces, nref = box_faces(Z[:, :ns], bs.lo, bs.hi)
-    one = nfaces == 1
-    if (nfaces == 0).any():
-        res.count('harness/boundary_point_not_on_box')
-    ex = normalize(numpy.linalg.solve(numpy.swapaxes(Bv[one], 1, 2), nref[one][..., None])[..., 0])
-    ck.cmp('|n|=1', 'product-boundary', numpy.linalg.norm(V['n'], axis=1), numpy.ones(len(Z)))
-    ck.cmp('n==exact outward normal (cofactor rule on box face)', 'product-boundary', V['n'][one], ex)
-    gref = ops['grad'][1](Xp)
-    ck.cmp('grad (spaces=)', 'product-boundary', V['grad'], gref, scale=ops['grad'][2](Xp))
-    ck.cmp('ngrad==p\'(x).n', 'product-boundary', V['ngrad'], numpy.einsum('k...i,ki->k...', gref, V['n']), scale=ops['grad'][2](Xp))
-    nu = nref.copy()
-    ck.cmp('J(x,spaces=)==|cof nu| J(g_S)', 'product-boundary', V['JS'][one], measure_ratio(Bv[one], nu[one]) * V['JS0'][one])
+    parts = case['parts']
+    if 'interior' in parts:
+        # interior
+        smp = topo.sample(*case['samples']['interior'])
+        named = dict(z=zgeom, G=G_nut, JS=JS, JS0=JS0)
+        named.update({k: v[0] for k, v in ops.items()})
+        V = eval_named(smp, named)
+        Z = V['z']
+        Xp = physical(Z)
+        res.count('points/product-interior', len(Z))
+        ck.cmp('x==Phi(g)', 'product-interior', V['G'], peval(Gz, Z), scale=float(pabs(Gz, Z).max()), nontrivial=False)
+        for k, (fn, ref, scl) in ops.items():
+            ck.cmp(k + ' (spaces=)', 'product-interior', V[k], ref(Xp), scale=scl(Xp))
+        Bv = peval(Bz, Z)
+        ck.cmp('J(x,spaces=)==|det dG/dxi_S| J(g_S)', 'product-interior', V['JS'], numpy.abs(numpy.linalg.det(Bv)) * V['JS0'])
 
+    if 'boundary' in parts:
+        # boundary of the operator space times the other space
+        fs = ftopo.sample(*case['samples']['boundary'])
+        named = dict(z=zgeom, n=nrm, grad=ops['grad'][0], ngrad=function.ngrad(f, G_nut, spaces=spaces), JS=JS, JS0=JS0)
+        V = eval_named(fs, named)
+        Z = V['z']
+        Xp = physical(Z)
+        Bv = peval(Bz, Z)
+        res.count('points/product-boundary', len(Z))
+        nfaces, nref = box_faces(Z[:, :ns], bs.lo, bs.hi)
+        one = nfaces == 1
+        if (nfaces == 0).any():
+            res.count('harness/boundary_point_not_on_box')
+        ex = normalize(numpy.linalg.solve(numpy.swapaxes(Bv[one], 1, 2), nref[one][..., None])[..., 0])
+        ck.cmp('|n|=1', 'product-boundary', numpy.linalg.norm(V['n'], axis=1), numpy.ones(len(Z)))
+        ck.cmp('n==exact outward normal (cofactor rule on box face)', 'product-boundary', V['n'][one], ex)
+        gref = ops['grad'][1](Xp)
+        ck.cmp('grad (spaces=)', 'product-boundary', V['grad'], gref, scale=ops['grad'][2](Xp))
+        ck.cmp('ngrad==p\'(x).n', 'product-boundary', V['ngrad'], numpy.einsum('k...i,ki->k...', gref, V['n']), scale=ops['grad'][2](Xp))
+        nu = nref.copy()
+        ck.cmp('J(x,spaces=)==|cof nu| J(g_S)', 'product-boundary', V['JS'][one], measure_ratio(Bv[one], nu[one]) * V['JS0'][one])
+
+    if 'integral' not in parts:
+        return
     # integrals: per-space divergence theorem integrated over the other space
     extra = 0 if b.affine else 2
     lim = TRI_MAXDEG if b.simplexdim else 10**6
